@@ -124,6 +124,94 @@ pub fn adversarial_variant(prog: &Program) -> Option<(Program, String)> {
     Some((p2, name))
 }
 
+
+/// Large-code matrix: every comparison form (two-operand, zero on the right, zero on the left) with
+/// a large then- or else-branch, a three-constructor match, a two-destructor cocase and a
+/// conditional followed by a large shared continuation.  The displacement of every branch has to
+/// fit the instruction form the backend chose for it; only an assembler (or a size-aware
+/// validator) can tell.
+pub fn large_programs(k: usize) -> Vec<(String, String)> {
+    let big = |v: &str| {
+        let mut s = String::with_capacity(k * 24);
+        for _ in 0..k {
+            s.push_str(&format!("    println_i64({v});\n"));
+        }
+        s.push_str(&format!("    {v}\n"));
+        s
+    };
+    let small = |v: &str| format!("    {v}\n");
+    let mut out = vec![];
+    let cmps = ["==", "!=", "<", "<=", ">", ">="];
+    for (ci, c) in cmps.iter().enumerate() {
+        for (fi, (l, r)) in [("x", "y"), ("x", "0"), ("0", "x")].iter().enumerate() {
+            for side in 0..2 {
+                let (a, b) = if side == 0 { (big("x"), small("y")) } else { (small("y"), big("x")) };
+                let text = format!(
+                    "def f(x: i64, y: i64): i64 {{\n  if {l} {c} {r} {{\n{a}  }} else {{\n{b}  }}\n}}\ndef main(n: i64, m: i64): i64 {{ f(n, m) }}\n"
+                );
+                out.push((format!("if-{}-form{}-{}", ci, fi, if side == 0 { "big-then" } else { "big-else" }), text));
+            }
+        }
+    }
+    out.push((
+        "match-3".into(),
+        format!(
+            "data T {{ A, B(a: i64), C(a: i64, b: i64) }}\ndef f(t: T, x: i64): i64 {{\n  t.case {{\n    A => (\n{}    ),\n    B(a) => (\n{}    ),\n    C(a, b) => (\n{}    )\n  }}\n}}\ndef main(n: i64): i64 {{ f(C(n, 2), n) }}\n",
+            big("x"),
+            big("a"),
+            big("b")
+        ),
+    ));
+    out.push((
+        "cocase-2".into(),
+        format!(
+            "codata P {{ fst: i64, snd: i64 }}\ndef f(x: i64, y: i64): i64 {{\n  let p: P = new {{\n    fst => (\n{}    ),\n    snd => (\n{}    )\n  }};\n  p.snd\n}}\ndef main(n: i64): i64 {{ f(n, 3) }}\n",
+            big("x"),
+            big("y")
+        ),
+    ));
+    out.push((
+        "shared-continuation".into(),
+        format!(
+            "def f(x: i64, y: i64): i64 {{\n  let z: i64 = if x < y {{ 1 }} else {{ 2 }};\n{}}}\ndef main(n: i64): i64 {{ f(n, 3) }}\n",
+            big("z")
+        ),
+    ));
+    out
+}
+
+fn large_case(tc: &Toolchain, label: &str, text: &str) -> CaseResult {
+    match run_text(tc, text, vec![format!("large:{}", label.split('-').next().unwrap_or(""))]) {
+        CaseResult::Pass { hash, classes, .. } => CaseResult::Pass { nontrivial: true, hash, classes, sample: None },
+        CaseResult::Fail(mut f) => {
+            // the source is k copies of one line: keep the replay small
+            f.details = json!({"large": label});
+            f.summary = format!("large-code matrix ({label}): {}", f.summary);
+            CaseResult::Fail(f)
+        }
+        d => d,
+    }
+}
+
+pub fn large_phase(ctx: &Ctx, tc: &Toolchain, ev: &mut Evidence, report: &mut Report) {
+    use rayon::prelude::*;
+    let sizes: Vec<usize> = if ctx.tier == Tier::Quick { vec![1200] } else { vec![1200, 4000] };
+    ev.rule.push_str(" (d) Large-code matrix: every comparison in two-operand form, with zero on the right and with zero on the left, with a then- or else-branch of 1200 (thorough: also 4000) print statements, plus a three-constructor match, a two-destructor cocase and a conditional followed by a large shared continuation, so that the displacement of every conditional branch, jump-table entry and address computation is tens to hundreds of KiB; same oracle (assembler acceptance covers the branch ranges).");
+    for k in sizes {
+        let progs = large_programs(k);
+        let results: Vec<CaseResult> = progs.par_iter().map(|(l, t)| large_case(tc, l, t)).collect();
+        for (i, r) in results.iter().enumerate() {
+            if let CaseResult::Fail(f) = r {
+                if report.violations.is_empty() {
+                    eprintln!("{}", f.summary);
+                    report.violations.push(write_replay_with(ctx, "large", &[], f, json!({"k": k, "index": i, "label": progs[i].0})));
+                }
+            }
+            ev.absorb(r);
+        }
+    }
+}
+
 pub fn check(ctx: &Ctx) -> i32 {
     let start = Instant::now();
     let tc = Toolchain::new(ctx.scratch.clone());
@@ -135,7 +223,9 @@ pub fn check(ctx: &Ctx) -> i32 {
     ];
     let mut report = Report { violations: vec![], infra_errors: vec![] };
     let cfg = cfg_for(ctx);
-    let n = ctx.tier.pick(700, 40000);
+    // debugging aid: VERIF_ONLY=large runs only the large-code matrix
+    let only_large = std::env::var("VERIF_ONLY").as_deref() == Ok("large");
+    let n = if only_large { 0 } else { ctx.tier.pick(700, 40000) };
     let run = |b: &[u8]| {
         let (p, _) = gen_program(b, &cfg);
         run_text(&tc, &emit_program(&p), vec![])
@@ -146,7 +236,7 @@ pub fn check(ctx: &Ctx) -> i32 {
         report.violations.push(write_replay(ctx, "program", &bytes, &f));
     }
     if report.violations.is_empty() {
-        let n2 = ctx.tier.pick(300, 20000);
+        let n2 = if only_large { 0 } else { ctx.tier.pick(300, 20000) };
         let run2 = |b: &[u8]| {
             let (p, _) = gen_program(b, &cfg);
             match adversarial_variant(&p) {
@@ -161,7 +251,7 @@ pub fn check(ctx: &Ctx) -> i32 {
         }
     }
     if report.violations.is_empty() {
-        let n3 = ctx.tier.pick(500, 40000);
+        let n3 = if only_large { 0 } else { ctx.tier.pick(500, 40000) };
         let run3 = |b: &[u8]| {
             let arch = [Arch::X86, Arch::A64, Arch::Rv][b.first().copied().unwrap_or(0) as usize % 3];
             let c = decode_lin(&lin_cfg_for(ctx, arch), b);
@@ -191,6 +281,9 @@ pub fn check(ctx: &Ctx) -> i32 {
             report.violations.push(write_replay(ctx, "linear", &bytes, &f));
         }
     }
+    if report.violations.is_empty() {
+        large_phase(ctx, &tc, &mut ev, &mut report);
+    }
     let infra: u64 = ev.discards.iter().filter(|(k, _)| k.starts_with("infra")).map(|(_, v)| *v).sum();
     if infra > 0 {
         report.infra_errors.push(format!("{infra} cases hit an infrastructure problem (see evidence)"));
@@ -198,9 +291,14 @@ pub fn check(ctx: &Ctx) -> i32 {
     finish(ctx, &ev, &report, start)
 }
 
-pub fn replay(ctx: &Ctx, sub: &str, bytes: &[u8], _case: &serde_json::Value) -> CaseResult {
+pub fn replay(ctx: &Ctx, sub: &str, bytes: &[u8], case: &serde_json::Value) -> CaseResult {
     let tc = Toolchain::new(ctx.scratch.clone());
     let cfg = cfg_for(ctx);
+    if sub.starts_with("large") {
+        let progs = large_programs(case["k"].as_u64().unwrap_or(1200) as usize);
+        let i = (case["index"].as_u64().unwrap_or(0) as usize).min(progs.len() - 1);
+        return large_case(&tc, &progs[i].0, &progs[i].1);
+    }
     if sub.starts_with("linear") {
         let arch = [Arch::X86, Arch::A64, Arch::Rv][bytes.first().copied().unwrap_or(0) as usize % 3];
         let c = decode_lin(&lin_cfg_for(ctx, arch), bytes);
